@@ -89,9 +89,12 @@ func c18EnvChild(args []string) {
 func c18EnvCheck(r *Run) {
 	exe, err := os.Executable()
 	must(err)
-	fakeHome := filepath.Join(r.Out, "c18-home", "someone")
+	// (outside the working directory of the run and outside every mapping: one prefix rule applies to the paths below it)
+	base, err := os.MkdirTemp("", "c18-home")
+	must(err)
+	defer os.RemoveAll(base)
+	fakeHome := filepath.Join(base, "someone")
 	must(os.MkdirAll(fakeHome, 0o755))
-	defer os.RemoveAll(filepath.Join(r.Out, "c18-home"))
 	for _, sc := range []string{"home", "gone-cwd"} {
 		cmd := exec.Command(exe, "C18-env", sc)
 		cmd.Env = os.Environ()
